@@ -337,6 +337,33 @@ def _run_geom(case):
         if np.abs(cen - exc).max() > 1e-11 * sc:
             v.append(viol("centroid", f"{zm2.name}: mesh.center = {cen}, exact {exc}", **key))
     fps = [got]
+    # the centre of mass a SIMULATION reports on that mesh (density x measure weighted centroid, same quadrature): uniform density, and a
+    # density per element on the affine single-group templates (cell centroid = mean of the vertices, cell measure from the vertices)
+    if d >= 2 and "measure" in zm2.exact and mesh.inDim == d:
+        from EasyFEA import Models, Simulations
+
+        from props.c02 import NVERT, elem_measures
+
+        simu = Simulations.Elastic(mesh, Models.Elastic.Isotropic(d, E=1.0, v=0.3, planeStress=True, thickness=0.7))
+        trials = [("uniform", 2.0, np.asarray(zm2.exact["centroid"], dtype=float))]
+        if not dist and not case.get("kink") and len(zm2.groups) == 1:
+            g0, con = next(iter(zm2.groups.items()))
+            rho_e = 1.0 + 1.5 * ((np.arange(con.shape[0]) * 7 + 1) % 5) / 4.0
+            m_e = elem_measures(zm2.coords, con, g0)
+            c_e = zm2.coords[con[:, :NVERT[Z.topo(g0)]]].mean(axis=1)
+            trials.append(("per_element", rho_e, (rho_e * m_e) @ c_e / float(rho_e @ m_e)))
+        sc = max(1.0, float(np.abs(zm2.coords).max()))
+        for nm, rho, exc in trials:
+            simu.rho = rho
+            nent += 1
+            try:
+                cs = np.asarray(simu.center, dtype=float)
+            except Exception as err:
+                v.append(viol("simu_center_raises", f"{zm2.name}: Simulations.Elastic(...).center with a {nm} density raised {type(err).__name__}: {str(err)[:120]}",
+                              density=nm, **key))
+                continue
+            if cs.shape != (3,) or np.abs(cs - exc).max() > 1e-11 * sc:
+                v.append(viol("simu_center", f"{zm2.name}: centre of mass of the simulation with a {nm} density = {cs}, exact {exc}", density=nm, **key))
     # integrands that return PLAIN arrays of shape (Ne, nPg) (np.asarray(x), np.full(x.shape, c), a third-party routine): same integrals
     if "measure" in zm2.exact:
         plain2 = sum(float(np.sum(np.asarray(g.Integrate_e(lambda x, y, z: np.full(np.shape(x), 2.0)), dtype=float))) for g in mesh.Get_list_groupElem(d))
